@@ -68,7 +68,41 @@ const (
 	mCallback
 	mFail
 	mGetCapLate
+	mGetSync
 )
+
+// syncHook is a ClientHook that completes every call INSIDE Recv (allowed by the ClientHook
+// contract): when the call comes from the peer, answer.Return runs synchronously on the
+// connection's receive goroutine, inside handleCall.
+type syncHook struct{ mk func() *capnp.Client }
+
+func (h syncHook) Send(ctx context.Context, s capnp.Send) (*capnp.Answer, capnp.ReleaseFunc) {
+	return capnp.ErrorAnswer(s.Method, errors.New("syncHook: Send not supported")), func() {}
+}
+
+// syncOnRecvGoroutine counts the calls syncHook completed while running on a Conn's receive goroutine.
+var syncOnRecvGoroutine int
+
+func (h syncHook) Recv(ctx context.Context, r capnp.Recv) capnp.PipelineCaller {
+	buf := make([]byte, 1<<14)
+	if strings.Contains(string(buf[:runtime.Stack(buf, false)]), "rpc.(*Conn).receive") {
+		syncOnRecvGoroutine++
+	}
+	res, err := r.AllocResults(argSize)
+	if err != nil {
+		r.Reject(err)
+		return nil
+	}
+	if err := setCap(res, h.mk()); err != nil { // a newly exported capability in the results
+		r.Reject(err)
+		return nil
+	}
+	r.Return()
+	return nil
+}
+
+func (h syncHook) Brand() capnp.Brand { return capnp.Brand{} }
+func (h syncHook) Shutdown()          {}
 
 func meth(m uint16) capnp.Method { return capnp.Method{InterfaceID: ifaceID, MethodID: m} }
 
@@ -164,6 +198,13 @@ func newApp(gate chan struct{}) *capnp.Client {
 		}},
 		{Method: meth(mFail), Impl: func(ctx context.Context, call *server.Call) error {
 			return errors.New("boom")
+		}},
+		{Method: meth(mGetSync), Impl: func(ctx context.Context, call *server.Call) error {
+			res, err := call.AllocResults(argSize)
+			if err != nil {
+				return err
+			}
+			return setCap(res, capnp.NewClient(syncHook{mk: self}))
 		}},
 		// returns a new capability once the gate opens OR its context is cancelled (a method that
 		// finishes its work although the caller lost interest)
@@ -433,8 +474,9 @@ func runCase(t *testing.T, cs caseSpec, flush func(runResult)) {
 		}
 		side := cs.side
 		nw, nr, _ := w.frwc[side].counts()
-		res.counts = fmt.Sprintf("nm=%d send=%d recv=%d write=%d read=%d steps=%d",
-			w.ft[side].nNew, w.ft[side].nSend, w.ft[side].nRecv, nw, nr, w.stepN)
+		res.counts = fmt.Sprintf("nm=%d send=%d recv=%d write=%d read=%d steps=%d syncrecv=%d",
+			w.ft[side].nNew, w.ft[side].nSend, w.ft[side].nRecv, nw, nr, w.stepN, syncOnRecvGoroutine)
+		syncOnRecvGoroutine = 0
 		if os.Getenv("C09_DEBUG") != "" {
 			fmt.Fprintln(os.Stderr, "counts:", res.counts, "obs:", res.obs)
 		}
@@ -589,6 +631,53 @@ func init() {
 		}
 		w.finish("echo-on-future-result", p)
 		w.finish("getcapblock-result", h)
+		w.step()
+	})
+	// audit item: a Call from the peer whose target is a capability this vat imported from the same
+	// connection is delivered through importClient.Recv ON THE RECEIVE GOROUTINE (handleCall,
+	// promisedAnswer with results ready); with a fault on the forwarded Call its answer is already
+	// resolved (error) and returnAnswer -> answer.Return run synchronously there
+	reg("loopready", func(w *world) {
+		boot, ok := w.bootstrap()
+		if !ok {
+			return
+		}
+		w.openGate() // echocap returns at once: its results (A's own capability) are ready,
+		// the Finish is not yet there when the pipelined call arrives
+		h := w.send("echocap", boot, w.ctx, mEchoCap, func(s capnp.Struct) error {
+			return setCap(s, w.local.AddRef())
+		})
+		<-h.t.done
+		if h.ans == nil {
+			return
+		}
+		p := w.pipeline("pipelined", h, w.ctx, mEcho)
+		if !w.step() {
+			return
+		}
+		w.finish("pipelined-result", p)
+		w.finish("echocap-result", h)
+		w.step()
+	})
+	// a capability whose hook returns synchronously inside Recv: answer.Return (successful, with a
+	// newly exported capability) runs on the peer's receive goroutine
+	reg("syncreturn", func(w *world) {
+		boot, ok := w.bootstrap()
+		if !ok {
+			return
+		}
+		h := w.send("getsync", boot, w.ctx, mGetSync, nil)
+		if !w.step() || !h.t.finished() || h.ans == nil {
+			return
+		}
+		c1 := w.pipeline("call-sync-1", h, w.ctx, mEcho)
+		c2 := w.pipeline("call-sync-2", h, w.ctx, mEcho)
+		if !w.step() {
+			return
+		}
+		w.finish("call-sync-1-result", c1)
+		w.finish("call-sync-2-result", c2)
+		w.finish("getsync-result", h)
 		w.step()
 	})
 	reg("pipeready", func(w *world) {
